@@ -118,7 +118,7 @@ def rand_text_bytes(rng, n, valid=True):
     return out
 
 
-def gen_sample(rng, chid, ch, user, allow_invalid_text=True):
+def gen_sample(rng, chid, ch, user, allow_invalid_text=True, ints_on_float=False):
     """returns dict(bytes=wire bytes after the channel byte, expect=[tokens], meta bytes, meta expect, model tokens)"""
     t, vd = ch.typ, ch.vdim
     data_b, exp, enc = b"", [], []
@@ -134,7 +134,18 @@ def gen_sample(rng, chid, ch, user, allow_invalid_text=True):
             enc.append(("i", r))
     elif t in (10, 11):
         kind = "NUM"
+        as_int = ints_on_float and rng.random() < 0.4     # what the simulated device's counters do
         for _ in range(vd):
+            if as_int:
+                import struct as _st
+                z = rng.choice([0, 1, -1, 5, 1000, (1 << 24) + 1, (1 << 53) + 1, (1 << 60) + (1 << 36) + 1,
+                                rng.randrange(-(1 << 70), 1 << 70), rng.randrange(-2000, 2000)])
+                b = _st.pack("<f" if t == 10 else "<d", z)
+                bits = int.from_bytes(b, "little")
+                data_b += b
+                exp.append(f32tok(bits) if t == 10 else f64tok(bits))
+                enc.append(("i", z))
+                continue
             bits = rand_f(rng, 32 if t == 10 else 64)
             data_b += bits.to_bytes(4 if t == 10 else 8, "little")
             exp.append(f32tok(bits) if t == 10 else f64tok(bits))
